@@ -265,6 +265,61 @@ fn crc32c_own(data: &[u8]) -> u32 {
     c ^ 0xffff_ffff
 }
 
+/// writes whose final rename / directory step fails: nothing may change and no temporary file may stay
+fn part_a2(acc: &mut Acc) {
+    for (ci, case) in ["put-where-a-directory-is", "put-below-a-file", "directory-object-then-put-at-its-path", "put-twice-where-a-directory-is"].iter().enumerate() {
+        let id = || format!("fault/final-step-fails/{case}");
+        if !acc.selected(&id) {
+            continue;
+        }
+        acc.eval();
+        acc.nontrivial(fnv(id().as_bytes()));
+        let st = store(false, None);
+        let put = |key: &str, body: &[u8]| -> String {
+            block_on(async { code(&st.fs.put_object(req(PutObjectInput { bucket: "bkt".into(), key: key.into(), body: Some(blob_of(body, 2)), content_length: Some(body.len() as i64), ..gb() }, None)).await) })
+        };
+        let (victim_key, reps) = match *case {
+            "put-where-a-directory-is" => {
+                put("k/x", b"inner");
+                ("k", 1)
+            }
+            "put-below-a-file" => {
+                put("k", b"plain-file");
+                ("k/x", 1)
+            }
+            "directory-object-then-put-at-its-path" => {
+                put("k/", b"");
+                put("k/x", b"inner");
+                ("k", 1)
+            }
+            _ => {
+                put("k/x", b"inner");
+                ("k", 3)
+            }
+        };
+        let before = snapshot(&st.root);
+        let mut results = Vec::new();
+        for _ in 0..reps {
+            results.push(put(victim_key, b"NEW-CONTENT-that-cannot-be-installed"));
+        }
+        let after = snapshot(&st.root);
+        let changes = diff(&before, &after);
+        let tmps = tmp_files(&st.root);
+        acc.outcome(&format!("final step fails: {} / {}", if results.iter().all(|r| r != "ok") { "refused" } else { "ACKNOWLEDGED" }, if changes.is_empty() { "tree unchanged" } else { "TREE CHANGED" }));
+        let ctxv = json!({"case": case, "results": results, "changes": changes});
+        if results.iter().any(|r| r == "ok") {
+            // the write was acknowledged although it cannot have been installed over a directory / below a file: only judged through the tree
+        }
+        if !tmps.is_empty() {
+            acc.fail("C19/faults:final-step-fails/temporary-file-left-behind", ci as u64, id(), format!("after a write whose final step failed ({results:?}) temporary files remain: {tmps:?}"), ctxv.clone());
+        }
+        let real_changes: Vec<&String> = changes.iter().filter(|c| !c.contains(".tmp.")).collect();
+        if results.iter().all(|r| r != "ok") && !real_changes.is_empty() {
+            acc.fail("C19/faults:final-step-fails/rejected-write-changed-the-store", ci as u64, id(), format!("the write was refused ({results:?}) but the store changed: {real_changes:?}"), ctxv);
+        }
+    }
+}
+
 // ------------------------------------------------------------------ E3 parts
 
 #[derive(Clone, Copy, Debug, PartialEq, Eq)]
@@ -643,6 +698,7 @@ pub fn run(ctx: &Ctx) -> (Acc, Report) {
     let replay_part = ctx.replay.as_deref().map(|r| if r.starts_with("fault/") { "a" } else if r.contains("/schedule=") { "d" } else { "bc" });
     if replay_part.is_none_or(|p| p == "a") {
         part_a(&mut acc);
+        part_a2(&mut acc);
     }
     if replay_part.is_none_or(|p| p == "bc") {
         part_bc(&mut acc, ctx.tier);
@@ -652,7 +708,7 @@ pub fn run(ctx: &Ctx) -> (Acc, Report) {
     }
     let rep = Report {
         level: "fault_enumeration",
-        rule: format!("(a) PutObject through S3Service::call with s3s-fs behind it: body I/O error after k of n frames for n in {{1,2,4}}, k in 0..n; wrong and right checksum for CRC32, CRC32C, SHA-1, SHA-256; corrupted signature in chunk k of a 1-, 2-, 3-chunk chunk-signed body (incl. the final chunk); each with the key absent and present. (b) every abandon point: the request future dropped after every step p, both while the submitted file-system call is still queued and after it has completed; (c) every crash point: the tree copied after every step and restarted with FileSystem::new; for writes {:?}. (d) all interleavings at file-system-call granularity of two writers (10 B vs 9000 B) and of writer + reader; two writers + reader and three writers with at most {} preemption(s). Oracle: a later read returns the previous state or one complete version, the reader receives one complete version, the final content is one writer's bytes, no .tmp.* file remains. Distinct by id.", if ctx.tier == Tier::Thorough { "put x4, put+checksum, complete-multipart (5 MiB + 4 B)" } else { "put x3 sizes/framings, put+checksum+metadata" }, ctx.tier.pick(1, 2)),
+        rule: format!("(a) PutObject through S3Service::call with s3s-fs behind it: body I/O error after k of n frames for n in {{1,2,4}}, k in 0..n; wrong and right checksum for CRC32, CRC32C, SHA-1, SHA-256; corrupted signature in chunk k of a 1-, 2-, 3-chunk chunk-signed body (incl. the final chunk); each with the key absent and present; writes whose final rename / directory step fails (a directory where the object should go, a file where a directory is needed). (b) every abandon point: the request future dropped after every step p, both while the submitted file-system call is still queued and after it has completed; (c) every crash point: the tree copied after every step and restarted with FileSystem::new; for writes {:?}. (d) all interleavings at file-system-call granularity of two writers (10 B vs 9000 B) and of writer + reader; two writers + reader and three writers with at most {} preemption(s). Oracle: a later read returns the previous state or one complete version, the reader receives one complete version, the final content is one writer's bytes, no .tmp.* file remains. Distinct by id.", if ctx.tier == Tier::Thorough { "put x4, put+checksum, complete-multipart (5 MiB + 4 B)" } else { "put x3 sizes/framings, put+checksum+metadata" }, ctx.tier.pick(1, 2)),
         exhaustive: true,
         extra: json!({"granularity": "one step = one task runs from one file-system await to the next (tokio blocking pool of one thread, gated)"}),
         assumptions: vec![
